@@ -998,8 +998,13 @@ def run(ctx: vlib.Ctx):
         "YAML/TOML, TOML date literals as ISO text); Dialect.merge's OPTION part is the translated kernel K2 (+K13), its STRATEGY part "
         "(pass_through for bytes/date/..., user strategies) and the options namedtuple_as_dict/omit_default/no_copy_collections are "
         "outside the model - format tie restricted to union-free types, strategies covered by the format oracle only",
-        "lazy compilation, module identity, PEP 563 and the Config options other than serialize_by_alias / omit_none are outside the "
-        "Coq model (invisible there): covered by the correspondence (as invariance) and the oracles",
+        "in the Coq model since round 4: Config.sort_keys / forbid_extra_keys / allow_deserialization_not_by_alias / omit_default, "
+        "literal field defaults (int/str/None), the merged dialect option omit_default; the format tie decides in Coq, from the "
+        "tables the kernel K13C reads off mashumaro/mixins/*.py, where a built-in dialect (date strategy, no_copy_collections) makes a "
+        "union-reaching type fall outside the model (counted in format_tie)",
+        "lazy compilation, module identity and PEP 563 are outside the Coq model (invisible there): covered by the correspondence "
+        "(as invariance) and the oracles; strategies, no_copy_collections, namedtuple_as_dict, non-literal defaults / "
+        "default_factory, non-str mapping keys remain oracle-only",
         "typing interns parametrised generics by equal arguments (List[Union[A,B]] is List[Union[B,A]]): modules in which the "
         "type objects do not have the generated member order are dropped (stated predicate module_matches_scenario)",
     ]
